@@ -19,9 +19,22 @@ struct Case {
   Elem root;
   int kind = 0;                 // 0: compose/decompose ; 1: subtree_serialize of an application object
   std::vector<int> vals;        // kind 1: parameter values
-  template <class A> void io(A &a) { a(root); if (a.more()) a(kind)(vals); }   // kind/vals: optional trailing fields (older case files end after root)
+  int slack = 12;               // bundles are built into dirty storage of exactly size+slack bytes
+  bool reuse = false;           // a second bundle is then put into the storage of the first and both are read by index in a generated order
+  Elem second;
+  std::vector<int> order1, order2;
+  template <class A> void io(A &a) { a(root); if (a.more()) a(kind)(vals); if (a.more()) a(slack)(reuse)(second)(order1)(order2); }   // optional trailing fields (older case files end earlier)
   std::string describe() const {
-    if (kind == 0) return root.describe();
+    if (kind == 0) {
+      std::string d = root.describe() + " slack=" + std::to_string(slack);
+      if (reuse) {
+        d += " | then in the same storage: " + second.describe() + " | element lookups";
+        for (int i : order1) d += " " + std::to_string(i);
+        d += " /";
+        for (int i : order2) d += " " + std::to_string(i);
+      }
+      return d;
+    }
     std::string d = "subtree_serialize of app with values";
     for (int v : vals) d += " " + std::to_string(v);
     return d;
@@ -39,39 +52,75 @@ Case vf_generate() {
   }
   int depth = vf::pick<int>(0, 4);
   c.root = bg::gen_elem(depth, 8, vf::chance(90));
+  c.slack = vf::oneof<int>({0, 1, 2, 3, 4, 4, 5, 8, 12});
+  if (c.root.is_bundle && !c.root.kids.empty() && vf::chance(50)) {
+    c.reuse = true;
+    c.second = bg::gen_elem(vf::pick<int>(0, 2), 8, true);
+    auto order = [&](size_t n) {
+      std::vector<int> o;
+      if (n == 0) return o;
+      switch (vf::pickn(4)) {
+        case 0: for (size_t i = 0; i < n; i++) o.push_back((int)i); break;
+        case 1: for (size_t i = n; i-- > 0;) o.push_back((int)i); break;
+        case 2: o.push_back((int)n - 1); break;
+        default: { int k = vf::pick<int>(1, (int)std::min<size_t>(2 * n, 16)); for (int i = 0; i < k; i++) o.push_back(vf::pickn((int)n)); }
+      }
+      return o;
+    };
+    c.order1 = order(c.root.kids.size());
+    c.order2 = order(c.second.kids.size());
+  }
   return c;
 }
 
-// build element bytes with the library (messages: amessage, bundles: rtosc_bundle of built children)
-static std::string build(const Elem &e, std::string &err) {
+// build element bytes with the library (messages: amessage, bundles: rtosc_bundle of built children).
+// Bundles are built into dirty storage of size+slack bytes; with slack >= 4 the storage itself (not a clean copy)
+// is what the enclosing bundle gets as its element, the way a caller composes bundles in place.
+struct Built { std::string bytes; std::unique_ptr<char[]> raw; size_t cap = 0; };
+static Built build(const Elem &e, std::string &err, int slack) {
+  Built out;
   std::string ref = e.ref();
   if (!e.is_bundle) {
     mg::ArgPack p = mg::pack(e.m);
-    std::string out(ref.size() + 8, (char)0xAA);
-    size_t r = rtosc_amessage(&out[0], out.size(), e.m.address.c_str(), e.m.tags.c_str(), p.args.empty() ? nullptr : p.args.data());
-    if (r != ref.size() || memcmp(out.data(), ref.data(), r)) { err = "message element differs from reference"; return ""; }
-    out.resize(r);
+    std::string o(ref.size() + 8, (char)0xAA);
+    size_t r = rtosc_amessage(&o[0], o.size(), e.m.address.c_str(), e.m.tags.c_str(), p.args.empty() ? nullptr : p.args.data());
+    if (r != ref.size() || memcmp(o.data(), ref.data(), r)) { err = "message element differs from reference"; return out; }
+    o.resize(r);
+    out.bytes = o;
     return out;
   }
+  std::vector<Built> kids;
   std::vector<bg::Block> blocks;
   std::vector<const char *> ptrs;
   for (auto &k : e.kids) {
-    std::string kb = build(k, err);
-    if (!err.empty()) return "";
-    blocks.emplace_back(kb);
+    kids.push_back(build(k, err, slack));
+    if (!err.empty()) return out;
   }
-  for (auto &b : blocks) ptrs.push_back(b.p.get());
-  const size_t cap = ref.size() + 12;
-  std::unique_ptr<char[]> buf(new char[cap]);
+  blocks.reserve(kids.size());
+  for (auto &k : kids) {
+    if (k.raw && k.cap >= k.bytes.size() + 4) ptrs.push_back(k.raw.get());
+    else { blocks.emplace_back(k.bytes); ptrs.push_back(blocks.back().p.get()); }
+  }
+  const size_t cap = ref.size() + (size_t)slack;
+  std::unique_ptr<char[]> buf(new char[cap ? cap : 1]);
   memset(buf.get(), 0xAA, cap);
   size_t r = bg::call_bundle(buf.get(), cap, e.tt, ptrs);
-  if (r != ref.size()) { err = "rtosc_bundle returned " + std::to_string(r) + ", reference size " + std::to_string(ref.size()); return ""; }
+  if (r != ref.size()) { err = "rtosc_bundle returned " + std::to_string(r) + ", reference size " + std::to_string(ref.size()) + " (capacity " + std::to_string(cap) + ")"; return out; }
   if (memcmp(buf.get(), ref.data(), r)) {
     size_t i = 0; while (buf[i] == ref[i]) i++;
     err = "rtosc_bundle bytes differ from reference at offset " + std::to_string(i);
-    return "";
+    return out;
   }
-  return std::string(buf.get(), r);
+  // in the storage it was built in (whatever that held before), the bundle has the length the length function reports
+  // and the element count it was given
+  size_t l = rtosc_message_length(buf.get(), cap);
+  if (l != r) { err = "rtosc_message_length of the bundle in the storage it was built in (capacity size+" + std::to_string(slack) + ", dirty before) = " + std::to_string(l) + " != " + std::to_string(r); return out; }
+  size_t k = rtosc_bundle_elements(buf.get(), cap);
+  if (k != e.kids.size()) { err = "rtosc_bundle_elements of the bundle in the storage it was built in (capacity size+" + std::to_string(slack) + ", dirty before) = " + std::to_string(k) + " != " + std::to_string(e.kids.size()); return out; }
+  out.bytes.assign(buf.get(), r);
+  out.raw = std::move(buf);
+  out.cap = cap;
+  return out;
 }
 
 static std::string decompose(const Elem &e, const char *p, size_t n, const std::string &path) {
@@ -136,12 +185,36 @@ static std::string run_serialize(const Case &c, vf::Ctx &ctx) {
 std::string vf_run(const Case &c, vf::Ctx &ctx) {
   if (c.kind == 1) return run_serialize(c, ctx);
   std::string err;
-  std::string bytes = build(c.root, err);
+  Built built = build(c.root, err, c.slack);
   if (!err.empty()) return err;
+  const std::string &bytes = built.bytes;
   std::unique_ptr<char[]> ex(new char[bytes.size()]);
   memcpy(ex.get(), bytes.data(), bytes.size());
   std::string r = decompose(c.root, ex.get(), bytes.size(), "root");
   if (!r.empty()) return r;
+  if (c.reuse) {
+    // two bundles one after the other in the same storage, elements looked up by index in a generated order
+    std::string b2 = c.second.ref();
+    const size_t cap = std::max(bytes.size(), b2.size());
+    std::unique_ptr<char[]> st(new char[cap]);
+    auto look = [&](const Elem &e, const std::string &by, const std::vector<int> &order, const char *what) -> std::string {
+      memset(st.get(), 0, cap);
+      memcpy(st.get(), by.data(), by.size());
+      for (int i : order) {
+        if (i < 0 || (size_t)i >= e.kids.size()) continue;
+        std::string kr = e.kids[(size_t)i].ref();
+        const char *f = rtosc_bundle_fetch(st.get(), (unsigned)i);
+        size_t sz = rtosc_bundle_size(st.get(), (unsigned)i);
+        if (sz != kr.size()) return std::string(what) + ": rtosc_bundle_size(" + std::to_string(i) + ") = " + std::to_string(sz) + " != " + std::to_string(kr.size());
+        if (!f || f < st.get() || f + kr.size() > st.get() + by.size() || memcmp(f, kr.data(), kr.size())) return std::string(what) + ": element " + std::to_string(i) + " fetched by index is not byte-identical";
+      }
+      return "";
+    };
+    if (!(r = look(c.root, bytes, c.order1, "first bundle in the storage")).empty()) return r;
+    if (!(r = look(c.second, b2, c.order2, "second bundle in the same storage")).empty()) return r;
+    ctx.count("reuse.second_bundle_in_same_storage");
+  }
+  ctx.count("slack." + std::to_string(c.slack));
   int d = c.root.depth();
   ctx.count("depth." + std::to_string(d));
   ctx.count("top_elements." + std::to_string(c.root.kids.size()));
